@@ -29,6 +29,9 @@ fn streams() -> Vec<Stream> {
         Stream { name: "scenarios-tight", count: (20_000, 600_000), exhaustive: false, run: tight },
         Stream { name: "add-output-edge", count: (30_000, 800_000), exhaustive: false, run: add_output_edge },
         Stream { name: "scenarios-squeezed", count: (20_000, 600_000), exhaustive: false, run: squeezed },
+        // the send-all route creates outputs under the same limits with its own arithmetic size model: the C13
+        // workload and judge, run here for the minimum-ADA / value-size / transaction-size clauses
+        Stream { name: "send-all-route", count: (2_500, 60_000), exhaustive: false, run: super::c13::send_all },
         Stream { name: "output-builder-min-coin", count: (40_000, 1_000_000), exhaustive: false, run: output_builder_min_coin },
     ]
 }
@@ -213,7 +216,9 @@ fn output_builder_min_coin(ctx: &mut Ctx, r: &mut Rng, _i: u64) {
             return;
         }
         Err(p) => {
-            ctx.violation(&format!("output-builder/{}", p.sig()), json!({"output": hx(&guard(|| o.to_bytes()).unwrap_or_default())}));
+            // a panic while building / serializing is judged by C01 / C02 (the checked build meets the known
+            // cbor_event negation overflow on a datum holding -2^63 here), not by the minimum-ADA property
+            ctx.panic_seen(&p);
             return;
         }
     };
@@ -313,7 +318,7 @@ fn add_output_edge(ctx: &mut Ctx, r: &mut Rng, _i: u64) {
                 }
             }
             Ok(Err(_)) => ctx.bucket(if satisfies { "collateral_return.rejected-although-bound-met" } else { "collateral_return.rejected-below-min" }),
-            Err(p) => ctx.violation(&format!("set_collateral_return_and_total/{}", p.sig()), json!({"output": hx(&cb)})),
+            Err(p) => ctx.panic_seen(&p), // judged by C02 (see output_builder_min_coin)
         }
         return;
     }
@@ -333,6 +338,6 @@ fn add_output_edge(ctx: &mut Ctx, r: &mut Rng, _i: u64) {
                 ctx.bucket("add_output.rejected-below-min");
             }
         }
-        Err(p) => ctx.violation(&format!("add_output/{}", p.sig()), json!({"output": hx(&cb)})),
+        Err(p) => ctx.panic_seen(&p), // judged by C02
     }
 }
